@@ -209,6 +209,9 @@ def messages(tier, seed):
         for st_ in ('2021-03-04T09:00:00', 'tomorrow-ish', None):
             doc = B.ro_doc([B.story('A', [B.item('a1')], md=B.timing_md(duration=d)), B.story('B', [])], message_id='1', ed_start=st_)
             out.append((f'running order document, duration {d!r}, start {st_!r}', TJ.to_text(doc), None))
+            # ... and the same content arriving as a roReplace (a RunningOrder subclass with its own inspect())
+            rr = B.ro_replace([B.story('A', [B.item('a1')], md=B.timing_md(duration=d)), B.story('B', [])], message_id='9', ed_start=st_)
+            out.append((f'roReplace, duration {d!r}, start {st_!r}', TJ.to_text(rr), None))
     frng = random.Random(seed * 23 + 1)
     for lbl, text, ro_text in list(out):
         if frng.random() < (0.4 if tier == 'quick' else 2.0):
